@@ -100,7 +100,13 @@ def attempt(spec, args):
         # preconditions must hold for the witness, else the witness is not a counterexample
         for r in spec.get('requires', []):
             code, _ = prep(r)
-            if not eval(code, ns):
+            try:
+                ok_r = eval(code, ns)
+            except NameError:
+                if spec.get('builder'):
+                    continue        # a scenario builder (whole run through the real entry points) names no receiver: states are legal by construction
+                raise
+            if not ok_r:
                 out['detail'] = 'witness violates requires: %s' % r
                 return out
         ens = [prep(e) for e in spec.get('ensures', [])]
